@@ -496,14 +496,21 @@ def _fold_forms(prog):
             if len(p_) >= 2 and src_.get("self.upper") == p_[1] and src_.get("self.lower") == p_[0] \
                     and src_.get("self.width") in (f"{p_[1]} - {p_[0]}", "self.upper - self.lower"):
                 ex.attr_overrides["self.width"] = R.sym("self.upper") - R.sym("self.lower")
-            pos = guard(lambda: ex.run(fn.body, {}))
-            if isinstance(pos, TupleV) or not hasattr(pos, "all_atoms"):
-                raise AnalysisError("fold-form: boundary_proposal does not return a single value")
-            dm = [a for a in pos.all_atoms() if a[0] == "fn" and a[1].startswith("numpy.divmod")]
-            par = [a for a in pos.all_atoms() if a[0] == "fn" and a[1] == "mod"]
-            draw = [a for a in pos.all_atoms() if a[0] == "sym" and a[1].startswith("rng.normal")]
-            if not dm or len(par) != 1 or len(draw) != 1 or len({a[2] for a in dm}) != 1:
-                raise AnalysisError(f"fold-form: boundary_proposal{tag} is neither a parity switch nor one exact divmod fold: {str(pos)[:160]}")
+            try:
+                pos = guard(lambda: ex.run(fn.body, {}))
+                if isinstance(pos, TupleV) or not hasattr(pos, "all_atoms"):
+                    raise AnalysisError("boundary_proposal does not return a single value")
+                dm = [a for a in pos.all_atoms() if a[0] == "fn" and a[1].startswith("numpy.divmod")]
+                par = [a for a in pos.all_atoms() if a[0] == "fn" and a[1] == "mod"]
+                draw = [a for a in pos.all_atoms() if a[0] == "sym" and a[1].startswith("rng.normal")]
+                if not dm or len(par) != 1 or len(draw) != 1 or len({a[2] for a in dm}) != 1:
+                    raise AnalysisError(f"neither a parity switch nor one exact divmod fold: {str(pos)[:160]}")
+            except AnalysisError as e_:
+                # not a shape this rule reads: no verdict on the fold (reported as withheld, exit 2) - the other rules of this
+                # property, and the properties that borrow from it, are still evaluated
+                prog.residue[qual(pc, fn)] = f"fold written in a form the rule does not read: {e_}"
+                out.append(struct_ob("fold-form", qual(pc, fn), False, f"not decided: {e_}", rel, fn.lineno))
+                return out
             args = anf.REG.get(dm[0][2])
             prop = R.atom(draw[0])
             lo = prop - args[0]                       # divmod is applied to (draw - lo, width)
